@@ -7,6 +7,9 @@ static int KSI_HighAvailabilityService_addRequest(KSI_HighAvailabilityService *h
 __CPROVER_requires(has != NULL && handle != NULL && handle == g_fan_user && has->services != NULL)
 __CPROVER_requires(g_fan_at == 0 && g_fan_offered == 0 && g_fan_accepted == 0 && g_fan_wrapper == NULL && g_hndl_new_calls == 0 && g_hndl_destroyed == 0)
 __CPROVER_requires(handle->ref >= 1 && handle->ref < 1000)
+/* fewer than 2^64-1 sub-services (KSI_HighAvailabilityService_addEndpoint refuses beyond ctx option KSI_OPT_HA_SAFEGUARD);
+ * otherwise the reference counter of the wrapper would wrap around */
+__CPROVER_requires(g_fan_len < (size_t)-1)
 /* accepted: every sub-service was offered one clone, at least one took it, and the wrapper expects exactly as many
  * responses as sub-services accepted; the user's handle is now waiting and its reference belongs to the service */
 __CPROVER_ensures(IMPLIES(__CPROVER_return_value == KSI_OK,
@@ -21,6 +24,6 @@ __CPROVER_ensures(IMPLIES(__CPROVER_return_value != KSI_OK && g_fan_len > 0 && g
 /* "cache full" & co. of single endpoints are not an error of the request as long as another endpoint accepted */
 __CPROVER_ensures(IMPLIES(g_fan_len > 0 && g_fan_offered == g_fan_len && g_fan_accepted >= 1, __CPROVER_return_value == KSI_OK))
 __CPROVER_ensures(IMPLIES(g_fan_len == 0, __CPROVER_return_value == KSI_INVALID_STATE && g_fan_at == 0))
-__CPROVER_assigns(__CPROVER_object_whole(handle), g_fan_at, g_fan_offered, g_fan_accepted, g_fan_lastres, g_fan_wrapper, g_hndl_new_calls, g_hndl_new_last, g_hndl_destroyed);
+__CPROVER_assigns(__CPROVER_object_whole(handle), __CPROVER_object_whole(&g_hndl_static), g_fan_at, g_fan_offered, g_fan_accepted, g_fan_lastres, g_fan_wrapper, g_hndl_new_calls, g_hndl_new_last, g_hndl_destroyed);
 
 #endif
